@@ -243,6 +243,11 @@ def abbreviate(obj, maxlen=10):
     return obj
 
 
+def tier():
+    """Tier of the current run ('quick' | 'thorough'); set by the runner before property modules are imported."""
+    return os.environ.get("VERIF_TIER", "quick")
+
+
 def derive_seed(seed, prop, clause_name, shard):
     s = "%d:%s:%s:%d" % (int(seed), prop, clause_name, int(shard))
     return int(hashlib.blake2b(s.encode(), digest_size=4).hexdigest(), 16)
